@@ -2,7 +2,8 @@
 Oracle for C03.
 
 case     : `stack=tlcp|dtlcp suite=<hex> auth=0|1 resume=0|1 base=<vers.suite.alpn.resumed>
-            edit=none|flip|drop|dup|swap|trunc|inject [dir=c2s|s2c rec=<n> off=<n> mask=<hex> inj=<kind>]
+            edit=none|flip|setlen|splice|drop|dup|swap|trunc|inject
+            [dir=c2s|s2c rec=<n> off=<n> mask=<hex> inj=<kind> | m=<n> op=<what> (splice)]
             [rtype= msg= field= orig=]`   (the last group names the edited bytes on the real record)
 observed : `c=<completed|failed(class)|panic> s=<…> stall=0|1 panic=0|1 [cv=<view>] [sv=<view>] [lay=<layout>]`
 
@@ -41,6 +42,9 @@ def world (cf : Cfg) : World symPrims where
     | .sendCertReq => cf.auth
     | .sendCertVerify => cf.auth
     | .expectCertVerify => cf.auth
+  -- only consulted when the source does not keep the received bytes (`decodedKeepRaw = false`,
+  -- which already fails `C03_facts`): this world re-encodes to the same bytes
+  reenc := fun _ m => m
 
 structure Edit where
   kind : String
@@ -90,6 +94,12 @@ def flipRecord (e : Edit) (r : Record) : Record :=
     else { r with typ := 255 }
   else { r with typ := 255 }
 
+/-- the model's image of a splice inside a handshake message (bytes inserted / removed /
+reordered, every enclosing length fixed up): the message changes and is still well framed -/
+def spliceRecord (e : Edit) (r : Record) : Record :=
+  if (fieldBase e.field).startsWith "beyond" || e.rtype != "hs" then r
+  else { r with payload := frame (mtype r.payload) (mbody r.payload ++ [0xEE]) }
+
 def injected (k : Codes) (kind : String) : Record :=
   if kind == "alertw" then ⟨k.rtAlert, k.vers, [1, 90]⟩
   else if kind == "alertf" then ⟨k.rtAlert, k.vers, [2, 40]⟩
@@ -121,6 +131,7 @@ def queueOf (k : Codes) (e : Edit) (w : Role) (outs : List (Role × Record)) : L
         recsOf w (outs.take cut)
   else if !edited then recs
   else if e.kind == "flip" || e.kind == "setlen" then recs.mapIdx (fun j r => if j = e.idx then flipRecord e r else r)
+  else if e.kind == "splice" then recs.mapIdx (fun j r => if j = e.idx then spliceRecord e r else r)
   else if e.kind == "drop" then recs.take e.idx ++ recs.drop (e.idx + 1)
   else if e.kind == "dup" then
     match recs[e.idx]? with
@@ -242,6 +253,14 @@ def judge (c o : String) : Option Verdict := do
         !startsWithStr fieldTok0 "beyond" && fieldTok0 != "-" && msgTok0 != "HelloVerifyRequest" &&
         !(dtls && msgTok0 == "ClientHello") then
       some s!"{msgTok0}:{fieldBase fieldTok0}"
+    -- a splice inside a handshake message (insertion / deletion / reordering with every length
+    -- fixed up) of a message that was never retransmitted; the cookie exchange of the datagram
+    -- stack (HelloVerifyRequest, and the ClientHello without cookie that a HelloVerifyRequest
+    -- answered) is not part of the handshake the Finished messages cover
+    else if kind == "splice" && same == 1 && (kv ct "rtype") == some "hs" && !startsWithStr fieldTok0 "beyond" &&
+        fieldTok0 != "-" && msgTok0 != "never" && msgTok0 != "HelloVerifyRequest" &&
+        !(dtls && msgTok0 == "ClientHello" && (kv ct "cookie") == some "0" && (kvNat ot "hvr").getD 0 ≥ 1) then
+      some s!"{msgTok0}:{fieldTok0}"
     else none
   let spec := judgeObs (opanic != "0" || oc == "panic" || os == "panic") cv sv (oc == "completed") (os == "completed") base altered
   let exact := mc == oc && ms == os && mstall == ostall
